@@ -60,6 +60,12 @@ def run(ck):
     ck.clause("C01.10", "a joined record is made only of segments that were checked against each other (the join bypasses the "
                         "chainer: a segment carried over from one part can cross the other part) (as C08.6)")
     c08._joined_row(RuleView(ck, {"C08.6": "C01.10"}, only_constructs=(":segments", ":only-resolved", ":order")))
+    ck.clause("C01.14", "the segments of a candidate are computed from that candidate's own inputs: a memo in the alignment chain is keyed "
+                        "by every input of what it remembers (strand included) - otherwise a candidate is handed the pairs of another one "
+                        "(as C09.3)")
+    from .c09 import persistent_state as _ps
+    _ps(RuleView(ck, {"C01.14": "C01.14"}, only_constructs=(":memo-key",), only_files=("src/alignment/",)), "C01.14")
+    ck.ok("C01.14", "alignment chain:memo keys", "src/alignment/", "no memo with an incomplete key in the alignment chain", "")
     no_empty_rows(ck)
     resolver_used(ck)
     pairwise_pass(ck, "C01.3")
